@@ -30,7 +30,7 @@ Definition origin_eqb (a b : origin) : bool :=
   end.
 Definition interim_eqb (a b : interim) : bool :=
   match a, b with
-  | NoInterim, NoInterim | I100, I100 | I103, I103 | I101, I101 => true
+  | NoInterim, NoInterim | I100, I100 | I103, I103 | I101, I101 | I100F, I100F | I103F, I103F => true
   | _, _ => false
   end.
 Lemma interim_eqb_eq a b : interim_eqb a b = true -> a = b.
@@ -105,13 +105,13 @@ Definition all_causes : list cause :=
 
 Definition all_inputs : list input :=
   [IReqHead; IReqHeadBody; IReqBodyEnd; IConnect None] ++ map (fun k => IConnect (Some k)) all_causes ++
-  [IReqSent; IBack1xx false; IBack1xx true; IBack101; IBackPartial; IBackHead; IBackEnd; IBackNoKeepAlive; IBackClose; IBackGarbage;
+  [IReqSent; IBack1xx false; IBack1xx true; IBackBurst false; IBackBurst true; IBack101; IBackPartial; IBackHead; IBackEnd; IBackNoKeepAlive; IBackClose; IBackGarbage;
    IFrontWrite true; IFrontWrite false; IFrontTimeout; IBackTimeout; IClientCancel; IClientClose].
 
 Lemma all_inputs_complete : forall i, In i all_inputs.
 Proof.
   intros i; unfold all_inputs, all_causes; cbn.
-  destruct i as [ | | | [k|] | | [|] | | | | | | | | [|] | | | | ]; try destruct k;
+  destruct i as [ | | | [k|] | | [|] | [|] | | | | | | | | [|] | | | | ]; try destruct k;
     repeat (try (left; reflexivity); right).
 Qed.
 
@@ -220,6 +220,7 @@ Definition p_clean_source (x : st) (i : input) : bool :=
         (match i with
          | IBackEnd => true
          | IBackClose => negb (s_ka (fst x))
+         | IFrontWrite true => interim_behind (s_interim (fst x))  (* the burst held the whole response and the FIN *)
          | _ => false
          end).
 
@@ -330,10 +331,29 @@ Definition is_crosstalk (e : ev) := match e with EvCrossTalk => true | _ => fals
 Definition p_reuse (x : st) (i : input) : bool :=
   negb (has_ev is_crosstalk (evs x i)) && negb (c_bdirty (snd (nxt x i))).
 
+(** an interim response, the final response and the backend's FIN in one segment: the segment is
+    never answered by a default answer (the close waits for what is buffered behind the interim),
+    nor is the close that follows; once the interim is written, the response buffer holds the
+    backend's own terminated response and nothing else was emitted but the interim *)
+Definition is_interim_ev (e : ev) := match e with EvInterim => true | _ => false end.
+Definition p_burst (x : st) (i : input) : bool :=
+  let s := fst x in let s' := fst (nxt x i) in
+  match i with
+  | IBackBurst _ => negb (has_ev is_default (evs x i)) && negb (has_ev is_abort (evs x i))
+  | IBackClose => implb (interim_behind (s_interim s)) (match evs x i with [] => true | _ => false end)
+  | IFrontWrite true =>
+    implb (interim_behind (s_interim s) && armed (snd x) && s_pending s && negb (c_closed (snd x)))
+          (has_ev is_interim_ev (evs x i) && negb (has_ev is_default (evs x i)) && negb (has_ev is_abort (evs x i))
+           && origin_eqb (s_origin s') OBackend && is_terminated (s_phase s') && s_clean s'
+           && negb (interim_behind (s_interim s')))
+  | _ => true
+  end.
+
 Definition p_all (x : st) (i : input) : bool :=
   p_monitor x i && p_relay_clean x i && p_clean_source x i && p_truncated x i && p_timer x i
   && p_front_timeout x i && p_back_close x i && p_connect x i && p_budget x i && p_armed x i
-  && p_close_delim x i && p_abort_started x i && p_isolation x i && p_early x i && p_head_gate x i && p_reuse x i.
+  && p_close_delim x i && p_abort_started x i && p_isolation x i && p_early x i && p_head_gate x i && p_reuse x i
+  && p_burst x i.
 
 End WithRedirect.
 
@@ -429,7 +449,7 @@ Lemma split_p_all x i :
   p_back_close redir x i = true /\ p_connect redir x i = true /\ p_budget redir x i = true /\
   p_armed redir x i = true /\ p_close_delim redir x i = true /\ p_abort_started redir x i = true /\
   p_isolation redir x i = true /\ p_early redir x i = true /\ p_head_gate redir x i = true /\
-  p_reuse redir x i = true.
+  p_reuse redir x i = true /\ p_burst redir x i = true.
 Proof.
   unfold p_all; intros H.
   repeat (apply andb_true_iff in H as [H ?]). repeat split; assumption.
@@ -588,7 +608,8 @@ Lemma no_truncated_as_complete_proof :
     let x := run_st redir (fresh, init_conn h2) history in
     (existsb is_relay_end (evs redir x i) = true -> s_clean (fst x) = true) /\
     (s_clean (fst (nxt redir x i)) = true -> s_clean (fst x) = false ->
-       i = IBackEnd \/ (i = IBackClose /\ s_ka (fst x) = false)) /\
+       i = IBackEnd \/ (i = IBackClose /\ s_ka (fst x) = false) \/
+       (i = IFrontWrite true /\ interim_behind (s_interim (fst x)) = true)) /\
     (i = IBackClose -> s_state (fst x) = SLinked -> s_ka (fst x) = true -> c_closed (snd x) = false ->
        (s_phase (fst x) = PBody \/ s_phase (fst x) = PChunks \/ s_phase (fst x) = PTrailers) ->
        existsb is_relay_end (evs redir x i) = false /\
@@ -603,7 +624,8 @@ Proof.
   - intros H. unfold p_relay_clean, has_ev in L1. rewrite H in L1. exact L1.
   - intros H1 H0. unfold p_clean_source in L2. rewrite H1, H0 in L2. cbn in L2.
     destruct i; try discriminate L2; auto.
-    right; split; [reflexivity|]. destruct (s_ka (fst x)); [discriminate L2 | reflexivity].
+    + right; left; split; [reflexivity|]. destruct (s_ka (fst x)); [discriminate L2 | reflexivity].
+    + destruct all; [|discriminate L2]. right; right; split; [reflexivity | exact L2].
   - intros -> Hs Hk Hc Hp. unfold p_truncated, has_ev in L3. rewrite Hs, Hk, Hc in L3.
     assert (E : negb (existsb is_relay_end (evs redir x IBackClose))
                 && ((existsb is_abort (evs redir x IBackClose) && is_error (s_phase (fst (nxt redir x IBackClose))))
@@ -738,7 +760,46 @@ Proof.
   intros redir h2 history i x.
   assert (Hx : In x reach0) by (apply run_st_in_reach, init_in_reach).
   pose proof (local redir x i Hx) as L. apply split_p_all in L.
-  destruct L as (_ & _ & _ & _ & _ & _ & _ & _ & _ & _ & _ & _ & _ & _ & _ & L).
+  destruct L as (_ & _ & _ & _ & _ & _ & _ & _ & _ & _ & _ & _ & _ & _ & _ & L & _).
   unfold p_reuse, has_ev in L. apply andb_true_iff in L as [L1 L2].
   apply negb_true_iff in L1. apply negb_true_iff in L2. split; assumption.
 Qed.
+
+Lemma burst_proof :
+  forall (redir : option N) (h2 : bool) (history : list input) (hints : bool),
+    let x := run_st redir (fresh, init_conn h2) history in
+    existsb is_default (evs redir x (IBackBurst hints)) = false /\
+    existsb is_abort (evs redir x (IBackBurst hints)) = false /\
+    (interim_behind (s_interim (fst x)) = true ->
+     evs redir x IBackClose = [] /\
+     (armed (snd x) = true -> s_pending (fst x) = true -> c_closed (snd x) = false ->
+      let y := nxt redir x (IFrontWrite true) in
+      existsb is_interim_ev (evs redir x (IFrontWrite true)) = true /\
+      existsb is_default (evs redir x (IFrontWrite true)) = false /\
+      existsb is_abort (evs redir x (IFrontWrite true)) = false /\
+      s_origin (fst y) = OBackend /\ is_terminated (s_phase (fst y)) = true /\ s_clean (fst y) = true)).
+Proof.
+  intros redir h2 history hints x.
+  assert (Hx : In x reach0) by (apply run_st_in_reach, init_in_reach).
+  split; [|split].
+  - pose proof (local redir x (IBackBurst hints) Hx) as L. apply split_p_all in L.
+    destruct L as (_ & _ & _ & _ & _ & _ & _ & _ & _ & _ & _ & _ & _ & _ & _ & _ & L).
+    unfold p_burst, has_ev in L. apply andb_true_iff in L as [L _]. apply negb_true_iff in L. exact L.
+  - pose proof (local redir x (IBackBurst hints) Hx) as L. apply split_p_all in L.
+    destruct L as (_ & _ & _ & _ & _ & _ & _ & _ & _ & _ & _ & _ & _ & _ & _ & _ & L).
+    unfold p_burst, has_ev in L. apply andb_true_iff in L as [_ L]. apply negb_true_iff in L. exact L.
+  - intros Hb. split.
+    + pose proof (local redir x IBackClose Hx) as L. apply split_p_all in L.
+      destruct L as (_ & _ & _ & _ & _ & _ & _ & _ & _ & _ & _ & _ & _ & _ & _ & _ & L).
+      unfold p_burst in L. rewrite Hb in L. cbn [implb] in L.
+      destruct (evs redir x IBackClose); [reflexivity | discriminate L].
+    + intros Ha Hp Hc y.
+      pose proof (local redir x (IFrontWrite true) Hx) as L. apply split_p_all in L.
+      destruct L as (_ & _ & _ & _ & _ & _ & _ & _ & _ & _ & _ & _ & _ & _ & _ & _ & L).
+      unfold p_burst, has_ev in L. rewrite Hb, Ha, Hp, Hc in L. cbn [andb implb negb] in L.
+      repeat (apply andb_true_iff in L as [L ?]).
+      repeat match goal with H : negb _ = true |- _ => apply negb_true_iff in H end.
+      subst y. repeat split; try assumption.
+      apply origin_eqb_eq; assumption.
+Qed.
+
